@@ -926,7 +926,7 @@ class LinearOperator(object):
         # We define it here so that we can map the torch function torch.abs to the LinearOperator method
         raise NotImplementedError(f"torch.abs({self.__class__.__name__}) is not implemented.")
 
-    @_implements_symmetric(torch.add)
+    @_implements(torch.add)
     def add(
         self: Float[LinearOperator, "*batch M N"],
         other: Union[Float[Tensor, "*batch M N"], Float[LinearOperator, "*batch M N"]],
@@ -2956,12 +2956,15 @@ class LinearOperator(object):
     ) -> Float[LinearOperator, "... M N"]:
         return self.mul(other)
 
+    @_implements_second_arg(torch.add)
     @_implements_second_arg(torch.Tensor.add)
     def __radd__(
         self: Float[LinearOperator, "*batch #M #N"],
         other: Union[Float[torch.Tensor, "*batch2 #M #N"], Float[LinearOperator, "*batch2 #M #N"], float],
+        alpha: Optional[float] = None,
     ) -> Float[LinearOperator, "... M N"]:
-        return self + other
+        # other + alpha * self: alpha scales the second operand of torch.add(other, self, alpha=alpha), i.e. self
+        return (self if alpha is None else self.mul(alpha)) + other
 
     def __rmul__(
         self: Float[LinearOperator, "*batch #M #N"],
@@ -2974,8 +2977,10 @@ class LinearOperator(object):
     def __rsub__(
         self: Float[LinearOperator, "*batch #M #N"],
         other: Union[Float[torch.Tensor, "*batch2 #M #N"], Float[LinearOperator, "*batch2 #M #N"], float],
+        alpha: Optional[float] = None,
     ) -> Float[LinearOperator, "... M N"]:
-        return self.mul(-1) + other
+        # other - alpha * self
+        return self.mul(-1 if alpha is None else -alpha) + other
 
     @classmethod
     def __torch_function__(
